@@ -529,15 +529,181 @@ Proof. induction ls as [|l ls IH]; intros H; [reflexivity|]. cbn [length chunk c
 Lemma length_concat_const w (ls : list (list F)) : (forall l, In l ls -> length l = w) -> length (concat ls) = (length ls * w)%nat.
 Proof. induction ls as [|l ls IH]; intros H; [reflexivity|]. cbn. rewrite app_length, IH by (intros; apply H; now right).
   rewrite (H l) by (now left). lia. Qed.
-(* all schedules have the same number of outcomes: calc_prob_dists returns the schedules' distributions *)
-Theorem calc_prob_dists_equal_counts eps (A : list lvec) (b : list F) (v : rvec F) (borns : list (list F)) w :
+(* ---- np.split at the cumulative outcome counts *)
+Lemma split_np_counts : forall (counts : list nat) (l : list F), counts <> [] -> length l = natsum counts ->
+  split_np F counts l = split_counts F counts l.
+Proof. induction counts as [|c t IH]; intros l Hne Hl; [congruence|]. destruct t as [|c' t'].
+  - cbn [split_np split_counts]. cbn in Hl. rewrite firstn_all2 by lia. reflexivity.
+  - change (split_np F (c :: c' :: t') l) with (firstn c l :: split_np F (c' :: t') (skipn c l)).
+    cbn [split_counts]. f_equal. apply IH; [discriminate|]. rewrite skipn_length, Hl. cbn [natsum fold_right]. lia. Qed.
+Lemma split_counts_concat : forall (ls : list (list F)), split_counts F (map (@length F) ls) (concat ls) = ls.
+Proof. induction ls as [|l ls IH]; [reflexivity|]. cbn [map split_counts concat].
+  rewrite firstn_app, firstn_all, Nat.sub_diag, firstn_O, app_nil_r. f_equal.
+  rewrite skipn_app, skipn_all, Nat.sub_diag. cbn [skipn app]. exact IH. Qed.
+Lemma map_trunc_norm_valid eps (borns : list (list F)) : (forall p, In p borns -> valid_dist F eps p) -> map (trunc_norm F eps) borns = borns.
+Proof. intros H. rewrite <- (map_id borns) at 2. apply map_ext_in. intros p Hp. apply trunc_norm_valid. now apply H. Qed.
+
+(* calc_prob_dists (after fix calc-prob-dists-mixed-outcome-counts) returns the schedules' distributions, whatever the
+   outcome counts are: [counts] = the lengths of the schedules' distributions, equal or not *)
+Theorem calc_prob_dists_ok eps (A : list lvec) (b : list F) (v : rvec F) (borns : list (list F)) :
+  affine A b v = concat borns -> borns <> [] -> (forall p, In p borns -> valid_dist F eps p) ->
+  calc_prob_dists F eps A b v (map (@length F) borns) = borns.
+Proof. intros E Hne Hval. unfold calc_prob_dists. rewrite E, split_np_counts.
+  - rewrite split_counts_concat. now apply map_trunc_norm_valid.
+  - destruct borns; [congruence|discriminate].
+  - apply length_concat_counts. Qed.
+(* without the validity hypothesis: every returned row is truncate_and_normalize of the schedule's own Born vector *)
+Theorem calc_prob_dists_rows eps (A : list lvec) (b : list F) (v : rvec F) (borns : list (list F)) :
+  affine A b v = concat borns -> borns <> [] ->
+  calc_prob_dists F eps A b v (map (@length F) borns) = map (trunc_norm F eps) borns.
+Proof. intros E Hne. unfold calc_prob_dists. rewrite E, split_np_counts.
+  - now rewrite split_counts_concat.
+  - destruct borns; [congruence|discriminate].
+  - apply length_concat_counts. Qed.
+
+(* ---- the code before the fix: reshape((num_schedules, -1)) *)
+(* all schedules have the same number of outcomes: the reshape returned the schedules' distributions *)
+Theorem calc_prob_dists_reshape_equal_counts eps (A : list lvec) (b : list F) (v : rvec F) (borns : list (list F)) w :
   affine A b v = concat borns -> borns <> [] -> (0 < w)%nat -> (forall p, In p borns -> length p = w) ->
   (forall p, In p borns -> valid_dist F eps p) ->
-  calc_prob_dists F eps A b v (length borns) = Some borns.
-Proof. intros E Hne Hw Hlen Hval. unfold calc_prob_dists. rewrite E, (length_concat_const w) by exact Hlen.
+  calc_prob_dists_reshape F eps A b v (length borns) = Some borns.
+Proof. intros E Hne Hw Hlen Hval. unfold calc_prob_dists_reshape. rewrite E, (length_concat_const w) by exact Hlen.
   destruct (length borns) as [|S'] eqn:ES. { destruct borns; [congruence|discriminate]. }
   rewrite (Nat.mul_comm (S S') w), Nat.mod_mul by lia. cbn [Nat.eqb]. rewrite Nat.div_mul by lia. rewrite <- ES, chunk_concat by exact Hlen.
   f_equal. rewrite <- (map_id borns) at 2. apply map_ext_in. intros p Hp. apply trunc_norm_valid. now apply Hval. Qed.
+(* the repair does not change any result the old code computed for equal outcome counts (no validity hypothesis) *)
+Lemma chunk_split_counts w : forall k (l : list F), chunk F w k l = split_counts F (repeat w k) l.
+Proof. induction k as [|k IH]; intros l; [reflexivity|]. cbn [chunk repeat split_counts]. now rewrite IH. Qed.
+Lemma natsum_repeat w k : natsum (repeat w k) = (k * w)%nat.
+Proof. induction k as [|k IH]; [reflexivity|]. cbn [repeat natsum fold_right]. fold (natsum (repeat w k)). rewrite IH. lia. Qed.
+Theorem calc_prob_dists_compat eps (A : list lvec) (b : list F) (v : rvec F) S w :
+  (0 < S)%nat -> (0 < w)%nat -> length (affine A b v) = (S * w)%nat ->
+  calc_prob_dists_reshape F eps A b v S = Some (calc_prob_dists F eps A b v (repeat w S)).
+Proof. intros HS Hw Hl. unfold calc_prob_dists_reshape, calc_prob_dists. rewrite Hl.
+  destruct S as [|S']; [lia|]. rewrite (Nat.mul_comm (S S') w), Nat.mod_mul by lia. cbn [Nat.eqb]. rewrite Nat.div_mul by lia.
+  rewrite chunk_split_counts, split_np_counts; [reflexivity|discriminate|]. rewrite natsum_repeat. exact Hl. Qed.
+
+(* ---- calc_fisher_matrix's slice (after fix calc-fisher-matrix-mixed-outcome-counts) *)
+Lemma map2_skipn {A B D} (f : A -> B -> D) : forall k (a : list A) (b : list B), map2 f (skipn k a) (skipn k b) = skipn k (map2 f a b).
+Proof. induction k as [|k IH]; intros a b; [reflexivity|]. destruct a as [|x a]; [now destruct b|].
+  destruct b as [|y b]; [cbn [skipn map2]; now destruct (skipn k a)|]. cbn [skipn map2]. apply IH. Qed.
+Lemma map2_firstn {A B D} (f : A -> B -> D) : forall k (a : list A) (b : list B), map2 f (firstn k a) (firstn k b) = firstn k (map2 f a b).
+Proof. induction k as [|k IH]; intros a b; [reflexivity|]. destruct a as [|x a]; [reflexivity|].
+  destruct b as [|y b]; [reflexivity|]. cbn [firstn map2]. now rewrite IH. Qed.
+Lemma affine_slice (A : list lvec) (b : list F) (v : rvec F) s c :
+  affine (firstn c (skipn s A)) (firstn c (skipn s b)) v = firstn c (skipn s (affine A b v)).
+Proof. unfold affine. now rewrite map2_firstn, map2_skipn. Qed.
+Lemma slice_concat : forall (ls : list (list F)) j, (j < length ls)%nat ->
+  firstn (length (nth j ls [])) (skipn (offset (map (@length F) ls) j) (concat ls)) = nth j ls [].
+Proof. induction ls as [|l ls IH]; intros j Hj; [cbn in Hj; lia|]. destruct j as [|j].
+  - cbn [nth map offset firstn natsum fold_right skipn concat]. now rewrite firstn_app, firstn_all, Nat.sub_diag, firstn_O, app_nil_r.
+  - cbn [nth map offset firstn natsum fold_right concat]. fold (natsum (firstn j (map (@length F) ls))).
+    rewrite skipn_app, (skipn_all2 l) by lia. cbn [app].
+    replace (length l + natsum (firstn j (map (@length F) ls)) - length l)%nat with (offset (map (@length F) ls) j) by (unfold offset; lia).
+    apply IH. cbn in Hj. lia. Qed.
+Theorem fisher_slice_ok (A : list lvec) (b : list F) (v : rvec F) (borns : list (list F)) j :
+  affine A b v = concat borns -> (j < length borns)%nat ->
+  fisher_prob_dist F A b v (map (@length F) borns) j = nth j borns [].
+Proof. intros E Hj. unfold fisher_prob_dist. cbv zeta. rewrite affine_slice, E.
+  change O with (@length F []). rewrite map_nth. now apply slice_concat. Qed.
+(* compatibility: with equal outcome counts the old slice [size*j, size*(j+1)) is the same slice *)
+Lemma offset_repeat w k j : (j <= k)%nat -> offset (repeat w k) j = (w * j)%nat.
+Proof. revert k. induction j as [|j IH]; intros k H; [unfold offset; cbn; lia|]. destruct k as [|k]; [lia|].
+  unfold offset in *. cbn [repeat firstn natsum fold_right]. fold (natsum (firstn j (repeat w k))). rewrite IH by lia. lia. Qed.
+Theorem fisher_slice_compat (A : list lvec) (b : list F) (v : rvec F) S w j :
+  (0 < S)%nat -> length A = (S * w)%nat -> (j < S)%nat ->
+  fisher_prob_dist_evenslice F A b v S j = fisher_prob_dist F A b v (repeat w S) j.
+Proof. intros HS Hl Hj. unfold fisher_prob_dist_evenslice, fisher_prob_dist. cbv zeta.
+  rewrite Hl, (Nat.mul_comm S w), Nat.div_mul by lia. rewrite offset_repeat by lia.
+  rewrite (nth_indep _ O w) by (rewrite repeat_length; exact Hj). now rewrite nth_repeat. Qed.
+
+(* ---- the outcome counts (num_outcomes(j)) are the lengths of the schedules' Born distributions *)
+Lemma qst_counts_born d para sd (povms : list (list lvec)) (scheds : list nat) (v : rvec F) :
+  map (@length F) (map (fun i => qst_born F d para sd (nth i povms []) v) scheds) = qst_counts F povms scheds.
+Proof. unfold qst_counts. rewrite map_map. apply map_ext. intros i. unfold qst_born, born_povm_state. apply map_length. Qed.
+Lemma povmt_counts_born d para sd m (states : list lvec) (scheds : list nat) (v : rvec F) :
+  map (@length F) (map (fun i => povmt_born F d para sd m (nth i states []) v) scheds) = povmt_counts m scheds.
+Proof. unfold povmt_counts. rewrite map_map. apply map_ext. intros i. unfold povmt_born. now rewrite map_length, seq_length. Qed.
+Lemma qpt_counts_born d para (states : list lvec) (povms : list (list lvec)) (scheds : list (nat * nat)) (v : rvec F) :
+  map (@length F) (map (fun ik => qpt_born F d para (nth (fst ik) states []) (nth (snd ik) povms []) v) scheds) = qpt_counts F povms scheds.
+Proof. unfold qpt_counts. rewrite map_map. apply map_ext. intros ik. unfold qpt_born, born_gate, born_povm_state. apply map_length. Qed.
+Lemma qmpt_counts_born d para m (states : list lvec) (povms : list (list lvec)) (scheds : list (nat * nat)) (v : rvec F) :
+  map (@length F) (map (fun ik => qmpt_born F d para m (nth (fst ik) states []) (nth (snd ik) povms []) v) scheds) = qmpt_counts F m povms scheds.
+Proof. unfold qmpt_counts. rewrite map_map. apply map_ext. intros ik. unfold qmpt_born.
+  rewrite (length_flat_map_const _ _ (length (nth (snd ik) povms []))).
+  - now rewrite seq_length.
+  - intros x _. unfold born_gate, born_povm_state. apply map_length. Qed.
+
+(* ---- end to end, per tomography type: calc_prob_dists / the Fisher slice computed from the stacked coefficient dictionary with
+   counts = num_outcomes are the Born distributions of the schedules' circuits -- any outcome counts, equal or mixed *)
+Theorem qst_calc_prob_dists d para sd eps (povms : list (list lvec)) (scheds : list nat) (v : rvec F) : sd <> 0 -> scheds <> [] ->
+  (forall i, In i scheds -> forall pv, In pv (nth i povms []) -> length pv = (d * d)%nat) ->
+  (forall i, In i scheds -> valid_dist F eps (qst_born F d para sd (nth i povms []) v)) ->
+  let dct := qst_coeffs F para sd povms scheds in
+  calc_prob_dists F eps (calc_matA dct) (calc_vecB dct) v (qst_counts F povms scheds)
+  = map (fun i => qst_born F d para sd (nth i povms []) v) scheds.
+Proof. intros Hsd Hne Hwf Hval dct. rewrite <- (qst_counts_born d para sd povms scheds v). apply calc_prob_dists_ok.
+  - now apply qst_forward.
+  - destruct scheds; [congruence|discriminate].
+  - intros p Hp. apply in_map_iff in Hp. destruct Hp as [i [<- Hi]]. now apply Hval. Qed.
+Theorem qst_fisher_slice d para sd (povms : list (list lvec)) (scheds : list nat) (v : rvec F) j : sd <> 0 -> (j < length scheds)%nat ->
+  (forall i, In i scheds -> forall pv, In pv (nth i povms []) -> length pv = (d * d)%nat) ->
+  let dct := qst_coeffs F para sd povms scheds in
+  fisher_prob_dist F (calc_matA dct) (calc_vecB dct) v (qst_counts F povms scheds) j
+  = qst_born F d para sd (nth (nth j scheds O) povms []) v.
+Proof. intros Hsd Hj Hwf dct. rewrite <- (qst_counts_born d para sd povms scheds v).
+  rewrite (fisher_slice_ok _ _ v (map (fun i => qst_born F d para sd (nth i povms []) v) scheds) j).
+  - rewrite (nth_map_lt _ _ O []) by exact Hj. reflexivity.
+  - now apply qst_forward.
+  - now rewrite map_length. Qed.
+Theorem povmt_calc_prob_dists d para sd eps m (states : list lvec) (scheds : list nat) (v : rvec F) : (0 < d)%nat -> scheds <> [] ->
+  (forall i, In i scheds -> length (nth i states []) = (d * d)%nat) ->
+  (forall i, In i scheds -> valid_dist F eps (povmt_born F d para sd m (nth i states []) v)) ->
+  let dct := povmt_coeffs F para sd m states scheds in
+  calc_prob_dists F eps (calc_matA dct) (calc_vecB dct) v (povmt_counts m scheds)
+  = map (fun i => povmt_born F d para sd m (nth i states []) v) scheds.
+Proof. intros Hd Hne Hwf Hval dct. rewrite <- (povmt_counts_born d para sd m states scheds v). apply calc_prob_dists_ok.
+  - now apply povmt_forward.
+  - destruct scheds; [congruence|discriminate].
+  - intros p Hp. apply in_map_iff in Hp. destruct Hp as [i [<- Hi]]. now apply Hval. Qed.
+Theorem qpt_calc_prob_dists d para eps (states : list lvec) (povms : list (list lvec)) (scheds : list (nat * nat)) (v : rvec F) :
+  (0 < d)%nat -> scheds <> [] ->
+  (forall ik, In ik scheds -> length (nth (fst ik) states []) = (d * d)%nat /\
+                              forall pv, In pv (nth (snd ik) povms []) -> length pv = (d * d)%nat) ->
+  (forall ik, In ik scheds -> valid_dist F eps (qpt_born F d para (nth (fst ik) states []) (nth (snd ik) povms []) v)) ->
+  let dct := qpt_coeffs F para states povms scheds in
+  calc_prob_dists F eps (calc_matA dct) (calc_vecB dct) v (qpt_counts F povms scheds)
+  = map (fun ik => qpt_born F d para (nth (fst ik) states []) (nth (snd ik) povms []) v) scheds.
+Proof. intros Hd Hne Hwf Hval dct. rewrite <- (qpt_counts_born d para states povms scheds v). apply calc_prob_dists_ok.
+  - now apply qpt_forward.
+  - destruct scheds; [congruence|discriminate].
+  - intros p Hp. apply in_map_iff in Hp. destruct Hp as [ik [<- Hik]]. now apply Hval. Qed.
+Theorem qpt_fisher_slice d para (states : list lvec) (povms : list (list lvec)) (scheds : list (nat * nat)) (v : rvec F) j :
+  (0 < d)%nat -> (j < length scheds)%nat ->
+  (forall ik, In ik scheds -> length (nth (fst ik) states []) = (d * d)%nat /\
+                              forall pv, In pv (nth (snd ik) povms []) -> length pv = (d * d)%nat) ->
+  let dct := qpt_coeffs F para states povms scheds in
+  fisher_prob_dist F (calc_matA dct) (calc_vecB dct) v (qpt_counts F povms scheds) j
+  = qpt_born F d para (nth (fst (nth j scheds (O, O))) states []) (nth (snd (nth j scheds (O, O))) povms []) v.
+Proof. intros Hd Hj Hwf dct. rewrite <- (qpt_counts_born d para states povms scheds v).
+  rewrite (fisher_slice_ok _ _ v (map (fun ik => qpt_born F d para (nth (fst ik) states []) (nth (snd ik) povms []) v) scheds) j).
+  - rewrite (nth_map_lt _ _ (O, O) []) by exact Hj. reflexivity.
+  - now apply qpt_forward.
+  - now rewrite map_length. Qed.
+Theorem qmpt_calc_prob_dists d (para : bool) eps m (states : list lvec) (povms : list (list lvec)) (scheds : list (nat * nat)) :
+  (0 < d)%nat -> ((if para then 2 else 1) <= m)%nat -> scheds <> [] ->
+  (forall ik, In ik scheds -> length (nth (fst ik) states []) = (d * d)%nat /\
+                              forall pv, In pv (nth (snd ik) povms []) -> length pv = (d * d)%nat) ->
+  exists dct, qmpt_coeffs F para (d * d) m states povms scheds = Some dct /\
+    forall v : rvec F,
+      (forall ik, In ik scheds -> valid_dist F eps (qmpt_born F d para m (nth (fst ik) states []) (nth (snd ik) povms []) v)) ->
+      calc_prob_dists F eps (calc_matA dct) (calc_vecB dct) v (qmpt_counts F m povms scheds)
+      = map (fun ik => qmpt_born F d para m (nth (fst ik) states []) (nth (snd ik) povms []) v) scheds.
+Proof. intros Hd Hm Hne Hwf. destruct (qmpt_forward d para m states povms scheds Hd Hm Hwf) as [dct [E1 E2]].
+  exists dct. split; [exact E1|]. intros v Hval. rewrite <- (qmpt_counts_born d para m states povms scheds v). apply calc_prob_dists_ok.
+  - apply E2.
+  - destruct scheds; [congruence|discriminate].
+  - intros p Hp. apply in_map_iff in Hp. destruct Hp as [ik [<- Hik]]. now apply Hval. Qed.
 
 (* ------------------------------------------------------------------ exact decision of full column rank *)
 Lemma dotl_cons (a : F) (r : lvec) (v : rvec F) : dotl (a :: r) v = a * v O + dotl r (fun i => v (S i)).
@@ -660,10 +826,184 @@ Proof. intros Hwf. split.
     { apply (Hk (fun k => s k - s' k)); [|exact Hi]. intros e He. rewrite dotl_sub. specialize (H e He). rewrite <- (Hwf e He) in H.
       change (dot (length e) (vl e) s) with (dotl e s) in H. change (dot (length e) (vl e) s') with (dotl e s') in H. rewrite H. ring. }
     cbv beta in Hz. replace (s i) with (s i - s' i + s' i) by ring. rewrite Hz. ring. Qed.
+Theorem separating_dec_spec n (effects : list lvec) : wf_rows n effects -> (fullcolrank_dec F n effects = true <-> separating F n effects).
+Proof. intros H. rewrite (fullcolrank_dec_spec n effects H). symmetry. exact (separating_iff_kernel n effects H). Qed.
 Theorem qst_fullrank_iff_ic d sd (povms : list (list lvec)) (scheds : list nat) :
   (forall i, In i scheds -> forall pv, In pv (nth i povms []) -> length pv = (d * d)%nat) ->
   (kernel_trivial F (d * d) (calc_matA (qst_coeffs F false sd povms scheds))
    <-> separating F (d * d) (concat (map (fun i => nth i povms []) scheds))).
 Proof. intros H. rewrite qst_matA_nopara. symmetry. apply separating_iff_kernel. intros e He. apply in_concat in He.
   destruct He as [povm [H1 H2]]. apply in_map_iff in H1. destruct H1 as [i [<- Hi]]. now apply (H i). Qed.
+
+(* ------------------------------------------------------------------ informationally complete testers => full column rank
+   (the direction the property states), all four tomography types, both flags. Route: full column rank <=> the variables are
+   identified by the schedules' Born statistics (above); equal statistics on separating testers force equal objects; the
+   object determines the variables (layout of object_of_var). *)
+Lemma app_eq_len {A} : forall (a a' b b' : list A), length a = length a' -> a ++ b = a' ++ b' -> a = a' /\ b = b'.
+Proof. induction a as [|x a IH]; intros a' b b' Hl E; destruct a' as [|x' a']; cbn in Hl; try lia.
+  - now split.
+  - cbn in E. injection E as -> E. destruct (IH a' b b' ltac:(lia) E) as [-> ->]. now split. Qed.
+Lemma concat_map_inj {A B} (f g : A -> list B) : forall l, (forall x, In x l -> length (f x) = length (g x)) ->
+  concat (map f l) = concat (map g l) -> forall x, In x l -> f x = g x.
+Proof. induction l as [|y l IH]; intros Hl E x Hx; [destruct Hx|]. cbn [map concat] in E.
+  destruct (app_eq_len _ _ _ _ (Hl y (or_introl eq_refl)) E) as [E1 E2].
+  destruct Hx as [<-|Hx]; [exact E1|]. apply IH; auto. intros; apply Hl; now right. Qed.
+Lemma map_eq_in {A B} (f g : A -> B) : forall l, map f l = map g l -> forall x, In x l -> f x = g x.
+Proof. induction l as [|y l IH]; intros E x Hx; [destruct Hx|]. cbn in E. injection E as E1 E2. destruct Hx as [<-|Hx]; auto. Qed.
+Lemma length_AB_build (ps : list (list coeff)) : length (calc_matA (build_dict ps)) = length (calc_vecB (build_dict ps)).
+Proof. destruct (rows_generic ps) as [H1 H2]. now rewrite H1, H2. Qed.
+(* index decoding  k = (k / n) * n + k mod n *)
+Lemma div_mod_pos k n : (0 < n)%nat -> k = ((k / n) * n + k mod n)%nat /\ (k mod n < n)%nat.
+Proof. intros Hn. split; [|apply Nat.mod_upper_bound; lia]. rewrite (Nat.mul_comm (k / n) n). apply Nat.div_mod. lia. Qed.
+
+Theorem qst_fullrank_of_ic d para sd (povms : list (list lvec)) (scheds : list nat) : sd <> 0 ->
+  (forall i, In i scheds -> forall pv, In pv (nth i povms []) -> length pv = (d * d)%nat) ->
+  separating F (d * d) (concat (map (fun i => nth i povms []) scheds)) ->
+  kernel_trivial F (qst_num_variables para d) (calc_matA (qst_coeffs F para sd povms scheds)).
+Proof. intros Hsd Hwf Hsep.
+  apply (proj2 (fullrank_iff_identifiable (qst_num_variables para d) _ (calc_vecB (qst_coeffs F para sd povms scheds))
+          (fun v => concat (map (fun i => qst_born F d para sd (nth i povms []) v) scheds))
+          (length_AB_build _) (fun v => qst_forward d para sd povms scheds v Hsd Hwf))).
+  intros v v' E k Hk.
+  assert (Hs : forall i, (i < d * d)%nat -> state_of_var F para sd v i = state_of_var F para sd v' i).
+  { apply Hsep. intros e He. apply in_concat in He. destruct He as [povm [H1 H2]]. apply in_map_iff in H1. destruct H1 as [i [<- Hi]].
+    assert (E1 : qst_born F d para sd (nth i povms []) v = qst_born F d para sd (nth i povms []) v').
+    { apply (concat_map_inj (fun i => qst_born F d para sd (nth i povms []) v) (fun i => qst_born F d para sd (nth i povms []) v') scheds);
+        [|exact E|exact Hi]. intros x _. unfold qst_born, born_povm_state. now rewrite !map_length. }
+    exact (map_eq_in _ _ _ E1 e H2). }
+  destruct para; cbn [qst_num_variables] in Hk.
+  - apply (Hs (S k)). lia.
+  - apply (Hs k Hk). Qed.
+
+Theorem povmt_fullrank_of_ic d para sd m (states : list lvec) (scheds : list nat) : (0 < d)%nat ->
+  (forall i, In i scheds -> length (nth i states []) = (d * d)%nat) ->
+  separating F (d * d) (map (fun i => nth i states []) scheds) ->
+  kernel_trivial F (povmt_num_variables para d m) (calc_matA (povmt_coeffs F para sd m states scheds)).
+Proof. intros Hd Hwf Hsep. assert (Hn : (0 < d * d)%nat) by (apply Nat.mul_pos_pos; exact Hd).
+  apply (proj2 (fullrank_iff_identifiable (povmt_num_variables para d m) _ (calc_vecB (povmt_coeffs F para sd m states scheds))
+          (fun v => concat (map (fun i => povmt_born F d para sd m (nth i states []) v) scheds))
+          (length_AB_build _) (fun v => povmt_forward d para sd m states scheds v Hd Hwf))).
+  intros v v' E k Hk. remember (d * d)%nat as n eqn:En.
+  assert (Hp : forall x, (x < m)%nat -> forall j, (j < n)%nat -> povm_of_var F para sd n m v x j = povm_of_var F para sd n m v' x j).
+  { intros x Hx. apply Hsep. intros e He. apply in_map_iff in He. destruct He as [i [<- Hi]].
+    assert (E1 : povmt_born F d para sd m (nth i states []) v = povmt_born F d para sd m (nth i states []) v').
+    { apply (concat_map_inj (fun i => povmt_born F d para sd m (nth i states []) v) (fun i => povmt_born F d para sd m (nth i states []) v') scheds);
+        [|exact E|exact Hi]. intros y _. unfold povmt_born. now rewrite !map_length. }
+    unfold povmt_born in E1. rewrite <- En in E1. pose proof (map_eq_in _ _ _ E1 x (proj2 (in_seq m O x) ltac:(lia))) as E2.
+    unfold born in E2. rewrite <- En in E2. rewrite (dot_comm n (vl _)), (dot_comm n (vl _) (povm_of_var F para sd n m v' x)). exact E2. }
+  destruct (div_mod_pos k n Hn) as [Ek Hr]. set (x := (k / n)%nat) in *. set (j := (k mod n)%nat) in *.
+  destruct para; cbn [povmt_num_variables] in Hk; rewrite <- En in Hk.
+  - assert (Hx : (x < m - 1)%nat) by (apply Nat.div_lt_upper_bound; [lia|]; rewrite Nat.mul_comm; exact Hk).
+    specialize (Hp x ltac:(lia) j Hr). unfold povm_of_var in Hp. cbn [andb] in Hp.
+    assert ((x =? m - 1)%nat = false) as Hf by (apply Nat.eqb_neq; lia). rewrite Hf in Hp. rewrite Ek. exact Hp.
+  - assert (Hx : (x < m)%nat) by (apply Nat.div_lt_upper_bound; [lia|]; rewrite Nat.mul_comm; exact Hk).
+    specialize (Hp x Hx j Hr). unfold povm_of_var in Hp. cbn [andb] in Hp. rewrite Ek. exact Hp. Qed.
+
+(* equal Born statistics with a gate, on separating effects and separating states, force equal HS matrices *)
+Lemma born_gate_separates d (I K : list nat) (states : list lvec) (povms : list (list lvec)) (H H' : rmat F) :
+  separating F (d * d) (map (fun i => nth i states []) I) ->
+  separating F (d * d) (concat (map (fun k => nth k povms []) K)) ->
+  (forall i k, In i I -> In k K -> born_gate F d (nth k povms []) H (nth i states []) = born_gate F d (nth k povms []) H' (nth i states [])) ->
+  forall a b, (a < d * d)%nat -> (b < d * d)%nat -> H a b = H' a b.
+Proof. intros Hst Heff E a b Ha Hb. revert b Hb. apply Hst. intros s Hs. apply in_map_iff in Hs. destruct Hs as [i [<- Hi]].
+  rewrite (dot_comm _ (vl _)), (dot_comm _ (vl _) (H' a)).
+  change (mv (d * d) H (vl (nth i states [])) a = mv (d * d) H' (vl (nth i states [])) a).
+  revert a Ha. apply Heff. intros e He. apply in_concat in He. destruct He as [povm [H1 H2]]. apply in_map_iff in H1. destruct H1 as [k [<- Hk]].
+  specialize (E i k Hi Hk). unfold born_gate, born_povm_state in E. exact (map_eq_in _ _ _ E e H2). Qed.
+
+Theorem qpt_fullrank_of_ic d para (I K : list nat) (states : list lvec) (povms : list (list lvec)) (scheds : list (nat * nat)) : (0 < d)%nat ->
+  (forall ik, In ik scheds -> length (nth (fst ik) states []) = (d * d)%nat /\
+                              forall pv, In pv (nth (snd ik) povms []) -> length pv = (d * d)%nat) ->
+  (forall i k, In i I -> In k K -> In (i, k) scheds) ->
+  separating F (d * d) (map (fun i => nth i states []) I) ->
+  separating F (d * d) (concat (map (fun k => nth k povms []) K)) ->
+  kernel_trivial F (qpt_num_variables para d) (calc_matA (qpt_coeffs F para states povms scheds)).
+Proof. intros Hd Hwf Hprod Hst Heff. assert (Hn : (0 < d * d)%nat) by (apply Nat.mul_pos_pos; exact Hd).
+  apply (proj2 (fullrank_iff_identifiable (qpt_num_variables para d) _ (calc_vecB (qpt_coeffs F para states povms scheds))
+          (fun v => concat (map (fun ik => qpt_born F d para (nth (fst ik) states []) (nth (snd ik) povms []) v) scheds))
+          (length_AB_build _) (fun v => qpt_forward d para states povms scheds v Hd Hwf))).
+  intros v v' E idx Hidx.
+  assert (HH : forall a b, (a < d * d)%nat -> (b < d * d)%nat -> hs_of_var F para (d * d) v a b = hs_of_var F para (d * d) v' a b).
+  { apply (born_gate_separates d I K states povms _ _ Hst Heff). intros i k Hi Hk.
+    apply (concat_map_inj (fun ik => qpt_born F d para (nth (fst ik) states []) (nth (snd ik) povms []) v)
+                          (fun ik => qpt_born F d para (nth (fst ik) states []) (nth (snd ik) povms []) v') scheds
+             (fun x _ => ltac:(unfold qpt_born, born_gate, born_povm_state; now rewrite !map_length)) E (i, k) (Hprod i k Hi Hk)). }
+  remember (d * d)%nat as n eqn:En.
+  destruct (div_mod_pos idx n Hn) as [Ek Hr]. set (a := (idx / n)%nat) in *. set (b := (idx mod n)%nat) in *.
+  destruct para; cbn [qpt_num_variables] in Hidx; rewrite <- En in Hidx.
+  - assert (Ha : (a < n - 1)%nat).
+    { apply Nat.div_lt_upper_bound; [lia|]. rewrite Nat.mul_sub_distr_l, Nat.mul_1_r. exact Hidx. }
+    specialize (HH (S a) b ltac:(lia) Hr). cbn [hs_of_var] in HH. rewrite Ek. exact HH.
+  - assert (Ha : (a < n)%nat) by (apply Nat.div_lt_upper_bound; [lia|exact Hidx]).
+    specialize (HH a b Ha Hr). cbn [hs_of_var] in HH. rewrite Ek. exact HH. Qed.
+
+Theorem qmpt_fullrank_of_ic d (para : bool) m (I K : list nat) (states : list lvec) (povms : list (list lvec)) (scheds : list (nat * nat)) :
+  (0 < d)%nat -> ((if para then 2 else 1) <= m)%nat ->
+  (forall ik, In ik scheds -> length (nth (fst ik) states []) = (d * d)%nat /\
+                              forall pv, In pv (nth (snd ik) povms []) -> length pv = (d * d)%nat) ->
+  (forall i k, In i I -> In k K -> In (i, k) scheds) ->
+  separating F (d * d) (map (fun i => nth i states []) I) ->
+  separating F (d * d) (concat (map (fun k => nth k povms []) K)) ->
+  exists dct, qmpt_coeffs F para (d * d) m states povms scheds = Some dct /\
+              kernel_trivial F (qmpt_num_variables para d m) (calc_matA dct).
+Proof. intros Hd Hm Hwf Hprod Hst Heff. assert (Hn : (0 < d * d)%nat) by (apply Nat.mul_pos_pos; exact Hd).
+  destruct (qmpt_forward d para m states povms scheds Hd Hm Hwf) as [dct [E1 E2]]. exists dct. split; [exact E1|].
+  assert (Hlen : length (calc_matA dct) = length (calc_vecB dct)).
+  { unfold qmpt_coeffs in E1. destruct (qmpt_per_schedule F para (d * d) m states povms scheds) as [ps|]; [|discriminate].
+    injection E1 as <-. apply length_AB_build. }
+  apply (proj2 (fullrank_iff_identifiable (qmpt_num_variables para d m) _ (calc_vecB dct)
+          (fun v => concat (map (fun ik => qmpt_born F d para m (nth (fst ik) states []) (nth (snd ik) povms []) v) scheds)) Hlen E2)).
+  intros v v' E idx Hidx.
+  assert (HH : forall x, (x < m)%nat -> forall a b, (a < d * d)%nat -> (b < d * d)%nat ->
+               hss_of_var F para (d * d) m v x a b = hss_of_var F para (d * d) m v' x a b).
+  { intros x Hx. apply (born_gate_separates d I K states povms _ _ Hst Heff). intros i k Hi Hk.
+    assert (Eb : qmpt_born F d para m (nth i states []) (nth k povms []) v = qmpt_born F d para m (nth i states []) (nth k povms []) v').
+    { assert (Hl : forall ik, In ik scheds ->
+                length (qmpt_born F d para m (nth (fst ik) states []) (nth (snd ik) povms []) v)
+                = length (qmpt_born F d para m (nth (fst ik) states []) (nth (snd ik) povms []) v')).
+      { intros ik _. unfold qmpt_born.
+        rewrite (length_flat_map_const _ _ (length (nth (snd ik) povms []))), (length_flat_map_const _ _ (length (nth (snd ik) povms [])));
+          [reflexivity| |]; intros y _; unfold born_gate, born_povm_state; apply map_length. }
+      exact (concat_map_inj (fun ik => qmpt_born F d para m (nth (fst ik) states []) (nth (snd ik) povms []) v)
+                            (fun ik => qmpt_born F d para m (nth (fst ik) states []) (nth (snd ik) povms []) v') scheds Hl E (i, k) (Hprod i k Hi Hk)). }
+    unfold qmpt_born in Eb. rewrite !flat_map_concat_map in Eb.
+    apply (concat_map_inj (fun x0 => born_gate F d (nth k povms []) (hss_of_var F para (d * d) m v x0) (nth i states []))
+                          (fun x0 => born_gate F d (nth k povms []) (hss_of_var F para (d * d) m v' x0) (nth i states [])) (seq O m));
+      [|exact Eb|apply in_seq; lia].
+    intros y _. unfold born_gate, born_povm_state. now rewrite !map_length. }
+  remember (d * d)%nat as n eqn:En.
+  assert (HN : (0 < n * n)%nat) by (apply Nat.mul_pos_pos; exact Hn).
+  (* decode an index inside a block x < m whose rows a < n are all variables *)
+  assert (Hblock : forall x i, (i < n * n)%nat -> exists a b, (a < n)%nat /\ (b < n)%nat /\ (x * (n * n) + i = x * (n * n) + a * n + b)%nat).
+  { intros x i Hi. destruct (div_mod_pos i n Hn) as [Ei Hb]. exists (i / n)%nat, (i mod n)%nat. split; [|split; [exact Hb|lia]].
+    apply Nat.div_lt_upper_bound; [lia|exact Hi]. }
+  destruct para; cbn [qmpt_num_variables] in Hidx; rewrite <- En in Hidx.
+  - (* equality constraint: blocks 0 .. m-2 in full, then rows 1 .. n-1 of the last block *)
+    destruct m as [|k]; [lia|]. rewrite Nat.mul_succ_l in Hidx.
+    destruct (Nat.lt_ge_cases idx (k * (n * n))) as [Hlo|Hhi].
+    + destruct (div_mod_pos idx (n * n) HN) as [Ei Hr].
+      assert (Hx : (idx / (n * n) < k)%nat) by (apply Nat.div_lt_upper_bound; [lia|]; rewrite Nat.mul_comm; exact Hlo).
+      destruct (Hblock (idx / (n * n))%nat (idx mod (n * n))%nat Hr) as [a [b [Ha [Hb Eab]]]].
+      specialize (HH (idx / (n * n))%nat ltac:(lia) a b Ha Hb). unfold hss_of_var in HH. cbn [andb] in HH.
+      assert ((idx / (n * n) =? S k - 1)%nat = false) as Hf by (apply Nat.eqb_neq; lia). rewrite Hf in HH.
+      rewrite Ei, Eab. exact HH.
+    + set (r := (idx - k * (n * n))%nat). assert (Hr : (r < n * n - n)%nat) by (unfold r; lia).
+      destruct (div_mod_pos r n Hn) as [Er Hb].
+      assert (Ha : (r / n < n - 1)%nat).
+      { apply Nat.div_lt_upper_bound; [lia|]. rewrite Nat.mul_sub_distr_l, Nat.mul_1_r. exact Hr. }
+      specialize (HH k ltac:(lia) (S (r / n)) (r mod n)%nat ltac:(lia) Hb). unfold hss_of_var in HH. cbn [andb] in HH.
+      replace (S k - 1)%nat with k in HH by lia. rewrite Nat.eqb_refl in HH.
+      replace idx with (k * (n * n) + r / n * n + r mod n)%nat by (unfold r in *; lia). exact HH.
+  - destruct (div_mod_pos idx (n * n) HN) as [Ei Hr].
+    assert (Hx : (idx / (n * n) < m)%nat) by (apply Nat.div_lt_upper_bound; [lia|]; rewrite Nat.mul_comm; exact Hidx).
+    destruct (Hblock (idx / (n * n))%nat (idx mod (n * n))%nat Hr) as [a [b [Ha [Hb Eab]]]].
+    specialize (HH (idx / (n * n))%nat Hx a b Ha Hb). unfold hss_of_var in HH. cbn [andb] in HH.
+    rewrite Ei, Eab. exact HH. Qed.
+
+(* ------------------------------------------------------------------ is_fullrank_matA (after fix fullrank-guard-column-rank) *)
+Theorem is_fullrank_matA_spec n (A : list lvec) : wf_rows n A -> (is_fullrank_matA F n A = true <-> kernel_trivial F n A).
+Proof. exact (fullcolrank_dec_spec n A). Qed.
+(* the old guard agrees with it on every matrix that is not wide *)
+Theorem is_fullrank_matA_compat n (A : list lvec) : (n <= length A)%nat -> is_fullrank_matA_minshape F n A = is_fullrank_matA F n A.
+Proof. intros H. unfold is_fullrank_matA_minshape, is_fullrank_matA, fullcolrank_dec. now rewrite Nat.min_r. Qed.
 End C08Proofs.
